@@ -96,7 +96,8 @@ def gen(tier, rng):
             operand = {"kind": okind, "shape": oshape, "vals": ovals, "unit": ounit}
         elif okind in ("cube", "nddata"):
             operand = {"kind": okind}
-        presliced = rng.random() < 0.3        # the cube is cube3[1] of a cube with one more axis that carried an extra coord
+        # 1 / 2: the cube is cube3[1] of a cube with one more axis that carried an extra coord (2: its only extra coord)
+        presliced = rng.choice([0, 0, 0, 0, 1, 2])
         key = f"{shape}|{op}|{payload}|{data}|{cunit}|{unc}|{uvals}|{mask}|{operand}|{k}|{presliced}"
         cases.append({"key": key, "stratum": f"{op}-{okind or ''}{'-si' if si else ''}", "shape": shape, "op": op, "payload": payload, "data": data, "cunit": cunit,
                       "unc": unc, "uvals": uvals, "mask": mask, "operand": operand, "k": k, "si": si, "presliced": presliced, "nontrivial": True,
@@ -131,7 +132,8 @@ def _mk_cube(case):
     c = NDCube(d, wcs=lin_wcs(len(full)), unit=_unit(case["cunit"]), meta={"origin": "probe", "n": 3}, **kw)
     if pre:
         c.extra_coords.add("exposure", 0, [1, 2, 4] * u.s, physical_types="custom:exposure")
-        c.extra_coords.add("e", 1, (np.arange(shape[0]) * 2 + 1) * u.m, physical_types="custom:e")
+        if case["presliced"] == 1:
+            c.extra_coords.add("e", 1, (np.arange(shape[0]) * 2 + 1) * u.m, physical_types="custom:e")
     else:
         c.extra_coords.add("e", 0, (np.arange(shape[0]) * 2 + 1) * u.m, physical_types="custom:e")
     c.global_coords.add("g", "custom:g", 3 * u.s)
@@ -202,9 +204,12 @@ def _same_frame(src, r):
             return "wcs"
         if list(r.extra_coords.keys()) != list(src.extra_coords.keys()):
             return "extra coords"
-        a, b = r.axis_world_coords_values(wcs=r.extra_coords), src.axis_world_coords_values(wcs=src.extra_coords)
-        if len(a) != len(b) or any(not np.array_equal(np.asarray(x), np.asarray(y)) for x, y in zip(a, b)):
-            return "extra coords values"
+        if src.extra_coords.is_empty != r.extra_coords.is_empty:
+            return "extra coords"
+        if not src.extra_coords.is_empty:
+            a, b = r.axis_world_coords_values(wcs=r.extra_coords), src.axis_world_coords_values(wcs=src.extra_coords)
+            if len(a) != len(b) or any(not np.array_equal(np.asarray(x), np.asarray(y)) for x, y in zip(a, b)):
+                return "extra coords values"
         if list(r.global_coords.keys()) != list(src.global_coords.keys()) or any(r.global_coords[n] != src.global_coords[n] for n in src.global_coords.keys()):
             return "global coords"
         if r.meta != src.meta:
